@@ -467,6 +467,8 @@ def run(ctx):
         ctx.check(bool(rets) and not odd, 'B2', '%s returns the %s it has just built from its argument' % (fi_.name, cname),
                   key=('B2', fi_.name, 'returns-built-record'), site=ctx.site(fi_, fi_.node),
                   detail={'other returns': [tq.text(t, 160) for t in odd]})
+    # ... and built from what its own section says: no loader writes (defaults, normalised values) into the mapping it reads
+    common.loaders_read_only(ctx, 'B2')
     check_payload_id(ctx)
     # ... and the PayloadID object keeps the type and the octets it is handed
     from .c05 import ctor_keeps_values
